@@ -32,6 +32,7 @@ type Profile struct {
 	SmallLimits bool // MaxBatchCount/MaxBatchSize tiny, hot-key limit small (C04)
 	Conflicts   bool // DetectConflicts
 	IterHeavy   bool // more/longer iterator scripts (C06)
+	AllowGC     bool // generate value-log GC steps even while C02-R1 is open (used to replay it)
 }
 
 // IterStep is one call on an open iterator.
@@ -179,6 +180,11 @@ func Gen(t *rapid.T, p Profile) Case {
 			op.M.Kind = rapid.SampledFrom(p.MaintKinds).Draw(t, "mkind2")
 			if op.M.Kind == "l0l0" && pbt.Open("C01-F1b") {
 				op.M.Kind = "compact"
+			}
+			if (op.M.Kind == "rewrite" || op.M.Kind == "gc") && pbt.Open("C02-R1") && !p.AllowGC {
+				// value-log GC re-inserts live OLD versions into the newest memtable; with the
+				// first-hit-by-level lookup (C02-R1) they then shadow newer versions in SSTs
+				op.M.Kind = "rotate"
 			}
 		}
 		c.Ops = append(c.Ops, op)
